@@ -307,6 +307,36 @@ Definition checks_before_sends_op (req : bexpr) (p : gprog) : bool :=
 Definition op_witness (req : bexpr) (p : gprog) : option env :=
   find_env (op_supp req p) (fun e => negb (op_ok req p e)).
 
+(** the same outcomes as [grun], each with the branches taken at the [GChoice] nodes on
+    its path (label, branch): used to turn a counterexample of the static check into the
+    ARGUMENTS to replay on the real constructor / operation *)
+Fixpoint gpaths (p : gprog) (e : env) : list (list (string * bool) * (result * list string)) :=
+  match p with
+  | GDone r => [([], (r, []))]
+  | GCall tx n k =>
+      if tx then map (fun x => (fst x, (fst (snd x), n :: snd (snd x)))) (gpaths k e)
+                 ++ map (fun o => ([], o)) (callee_raises n)
+      else gpaths k e
+  | GIf c t f => if beval c e then gpaths t e else gpaths f e
+  | GChoice l t f =>
+      map (fun x => ((l, true) :: fst x, snd x)) (gpaths t e)
+      ++ map (fun x => ((l, false) :: fst x, snd x)) (gpaths f e)
+  end.
+
+Definition ctor_witness_path (req : bexpr) (p : gprog) : list (string * bool) :=
+  match ctor_witness req p with
+  | Some e => match find (fun x => negb (ctor_outcome_ok req e (snd x))) (gpaths p e) with
+              | Some x => fst x | None => [] end
+  | None => []
+  end.
+
+Definition op_witness_path (req : bexpr) (p : gprog) : list (string * bool) :=
+  match op_witness req p with
+  | Some e => match find (fun x => negb (op_outcome_ok req e (snd x))) (gpaths p e) with
+              | Some x => fst x | None => [] end
+  | None => []
+  end.
+
 (** non-vacuity helper: some outcome completes normally after transmitting *)
 Definition completes_with_send (p : gprog) (e : env) : bool :=
   existsb (fun o => result_eqb (fst o) ROk && negb (is_nil (snd o))) (grun p e).
